@@ -84,6 +84,26 @@ class BillingSufficiencyCriteria'''),
          old="            is_electricity_data=self.is_electricity_data,\n            is_reporting_data=True,\n", new="            is_electricity_data=self.is_electricity_data,\n"),
     dict(id="c10-gas-flag-not-forwarded", property="C10", kind="break", expect_rule="R10.4", file=DD,
          old="            data=sufficiency_df, is_electricity_data=self.is_electricity_data\n        )", new="            data=sufficiency_df\n        )"),
+    dict(id="c10-valid-days-ignore-temperature", property="C10", kind="break", expect_rule="R10.2", file=S,
+         old="            valid_rows = valid_meter_value_rows & valid_temperature_rows", new="            valid_rows = valid_meter_value_rows"),
+    dict(id="c10-valid-days-or", property="C10", kind="break", expect_rule="R10.2", file=S,
+         old="            valid_rows = valid_meter_value_rows & valid_temperature_rows", new="            valid_rows = valid_meter_value_rows | valid_temperature_rows"),
+    dict(id="c10-valid-days-unweighted", property="C10", kind="break", expect_rule="R10.2", file=S,
+         old="        n_valid_days = int((valid_rows * row_day_counts).sum())", new="        n_valid_days = int(valid_rows.sum())"),
+    dict(id="c10-valid-temperature-coverage-ge", property="C10", kind="break", expect_rule="R10.2", file=S,
+         old="        ) > self.min_fraction_hourly_temperature_coverage_per_period", new="        ) >= self.min_fraction_hourly_temperature_coverage_per_period"),
+    dict(id="c10-monthly-meter-max-not-mean", property="C10", kind="break", expect_rule="R10.2", file=S,
+         old='                self.data["observed"]\n                .groupby(self.data.index.month)\n                .apply(lambda x: x.notna().mean())',
+         new='                self.data["observed"]\n                .groupby(self.data.index.month)\n                .apply(lambda x: x.notna().max())'),
+    dict(id="c10-monthly-meter-all", property="C10", kind="break", expect_rule="R10.2", file=S,
+         old='                non_null_meter_percentage_per_month < self.min_fraction_daily_coverage\n            ).any():',
+         new='                non_null_meter_percentage_per_month < self.min_fraction_daily_coverage\n            ).all():'),
+    dict(id="c10-benign-valid-days-ifexp", property="C10", kind="benign", file=S,
+         old="        if not self.is_reporting_data:\n            valid_rows = valid_meter_value_rows & valid_temperature_rows\n        else:\n            valid_rows = valid_temperature_rows\n",
+         new="        valid_rows = valid_temperature_rows if self.is_reporting_data else (valid_temperature_rows & valid_meter_value_rows)\n"),
+    dict(id="c10-benign-monthly-notnull", property="C10", kind="benign", file=S,
+         old='                self.data["observed"]\n                .groupby(self.data.index.month)\n                .apply(lambda x: x.notna().mean())',
+         new='                self.data.observed\n                .groupby(self.data.index.month)\n                .apply(lambda s: s.notnull().mean())'),
     dict(id="c10-benign-not-ge", property="C10", kind="benign", file=S,
          old="if fraction_valid_days < self.min_fraction_daily_coverage:", new="if not (fraction_valid_days >= self.min_fraction_daily_coverage):"),
     dict(id="c10-benign-span-parenthesised", property="C10", kind="benign", file=S,
